@@ -16,5 +16,7 @@ def check(ctx):
     # the mode switch a peek reports is decided by the same transition lookup next() uses
     from . import pC06
     pC06.transition_lookup_rules(ctx)
+    # ... and next() switches exactly when that lookup says so (one lookup, in the current mode, keyed by the match)
+    pC06.mode_switch_rules(ctx)
     from .common import cache_foundation
     cache_foundation(ctx)
